@@ -16,7 +16,7 @@ CONSTANTS
   MaxNet = 4
   MaxCrashes = 0
   MaxProposals = 0
-  MaxDepth = 60
+  MaxDepth = 40
   AllowDrop = TRUE
   AllowDup = FALSE
   AllowAsync = FALSE
@@ -27,9 +27,9 @@ CONSTANTS
   QuiescentTicks = TRUE
   MaxLeaderTicks = 0
   TickNodes = {1}
-  MaxDrops = 1
+  MaxDrops = 0
   MaxTransfers = 1
-  TransferTargets = {2, 3}
+  TransferTargets = {2}
   MaxConf = 0
   ConfMenuIds = {}
   MaxReads = 0
